@@ -61,31 +61,23 @@ def inner_ty(ty, wrapper):
     return "".join(out).strip()
 
 
-def bnd_key(key):
-    return ("bnd",) + key
+def fresh_ident(A):
+    A.symctr += 1
+    return ("val", "%s.%d" % (A.cur, A.symctr))
 
 
-def boundaries(st, key):
-    return st.env.get(bnd_key(key), ("bnds", frozenset()))[1]
+def with_ident(s, ln=None, flags=None, ident="same"):
+    """copy of seq value s with a new length / flags; ident 'same' keeps the content identity"""
+    return ("seq", s[1] if ln is None else ln, s[2] if flags is None else flags, seq_ident(s) if ident == "same" else ident)
 
 
-def add_boundary(st, key, lin):
-    cur = boundaries(st, key)
-    st.env[bnd_key(key)] = ("bnds", cur | frozenset([lin]))
-
-
-def is_boundary(A, st, key, seq, lin):
-    if "ascii" in seq[2]:
-        return True
-    if lin.is_const() and lin.c == 0:
-        return True
-    if st.store.entails_eq(lin.sub(seq[1])):
-        return True
-    if key is not None:
-        for bl in boundaries(st, key):
-            if bl == lin or st.store.entails_eq(lin.sub(bl)):
-                return True
-    return False
+def sub_ident(s, start):
+    i = seq_ident(s)
+    if i is None or start is None:
+        return None
+    if start.is_const() and start.c == 0:
+        return ("sub", i, Lin.const(0))
+    return ("sub", i, start)
 
 
 def pat_info(A, st, v):
@@ -98,6 +90,18 @@ def pat_info(A, st, v):
         n = 1 if c < 0x80 else 2 if c < 0x800 else 3 if c < 0x10000 else 4
         return Lin.const(n), c < 0x80
     return None, False
+
+
+def pat_text(A, st, v):
+    """the literal text of a constant pattern, or None"""
+    v = A.deref(st, v)
+    if v[0] == "seq":
+        i = seq_ident(v)
+        if i is not None and i[0] == "const":
+            return i[1]
+    if v[0] == "int" and v[1].is_const() and 0 <= v[1].c < 0x110000:
+        return chr(v[1].c)
+    return None
 
 
 # combinator -> (family of the receiver, what happens on the positive tag, what happens on the negative tag)
@@ -151,6 +155,8 @@ def closure_combinator(A, fn, frame, b, t, st, n, dest_ty):
             continue
         s1 = st.copy()
         pay = payload if tag == this_tag or tag is None and this_tag == ptag else None
+        if payload is not None and payload[0] == "either":
+            pay = payload[1] if this_tag == ptag else payload[2]
         # payload type for defaults comes from the closure parameter
         kind = action[0]
 
@@ -226,7 +232,7 @@ def model(A, fn, frame, b, t, st, name):
         s = seq_of(A, st, v)
         if s is not None:
             if seq_kind(dest_ty) in ("vec", "string") or not dest_ty.startswith("&"):
-                return ret(("seq", s[1], s[2]))       # a new owned value with the same length
+                return ret(("seq", s[1], s[2], seq_ident(s)))       # a new owned value with the same contents
             return ret(v if v[0] == "ptr" else s)
         if matches(n, "Deref::deref", "DerefMut::deref_mut", "AsRef::as_ref", "AsMut::as_mut", "Borrow::borrow", "hint::must_use", "Box::new", "convert::identity"):
             return ret(v if v[0] in ("ptr", "int", "opt", "tuple") else None)
@@ -280,28 +286,28 @@ def model(A, fn, frame, b, t, st, name):
             kind, lo, hi = ix[1], ix[2], ix[3]
             if kind == "RangeFull":
                 A.require(st, fn, b, "index:range", "full range: cannot fail", [])
-                return ret(("seq", ln, s[2]))
+                return ret(("seq", ln, s[2], seq_ident(s)))
             if kind == "Range":
                 A.require(st, fn, b, "index:range", "start <= end <= len", [lo.sub(hi) if lo is not None and hi is not None else None, hi.sub(ln) if hi is not None else None])
-                res = ("seq", hi.sub(lo), s[2]) if lo is not None and hi is not None else None
+                res = ("seq", hi.sub(lo), s[2], sub_ident(s, lo)) if lo is not None and hi is not None else None
                 ends = [lo, hi]
             elif kind == "RangeFrom":
                 A.require(st, fn, b, "index:range", "start <= len", [lo.sub(ln) if lo is not None else None])
-                res = ("seq", ln.sub(lo), s[2]) if lo is not None else None
+                res = ("seq", ln.sub(lo), s[2], sub_ident(s, lo)) if lo is not None else None
                 ends = [lo]
             elif kind == "RangeTo":
                 A.require(st, fn, b, "index:range", "end <= len", [hi.sub(ln) if hi is not None else None])
-                res = ("seq", hi, s[2]) if hi is not None else None
+                res = ("seq", hi, s[2], sub_ident(s, Lin.const(0))) if hi is not None else None
                 ends = [hi]
             elif kind in ("RangeInclusive", "RangeToInclusive"):
                 A.require(st, fn, b, "index:range", "end < len", [hi.sub(ln).addc(1) if hi is not None else None] + ([lo.sub(hi).addc(-1)] if lo is not None and hi is not None else []))
-                res = ("seq", hi.addc(1).sub(lo if lo is not None else Lin.const(0)), s[2]) if hi is not None else None
+                res = ("seq", hi.addc(1).sub(lo if lo is not None else Lin.const(0)), s[2], sub_ident(s, lo if lo is not None else Lin.const(0))) if hi is not None else None
                 ends = [lo, hi.addc(1) if hi is not None else None]
             else:
                 A.require(st, fn, b, "index:range", "range within bounds", [None])
                 res, ends = None, []
             if is_str:
-                okb = all(e is not None and is_boundary(A, st, skey, s, e) for e in ends)
+                okb = all(e is not None and is_cb(st, s, e) for e in ends)
                 sx = A.site(fn, b, "str-boundary", "str slice ends fall on char boundaries")
                 if not st.bottom:
                     sx.seen += 1
@@ -316,6 +322,11 @@ def model(A, fn, frame, b, t, st, name):
         return ret(None)
     if matches(n, "slice::get", "slice::get_mut", "slice::first", "slice::last", "slice::first_mut", "slice::last_mut", "Vec::get", "Vec::get_mut", "Vec::pop",
                "str::get", "slice::split_first", "slice::split_last", "str::strip_suffix", "str::strip_prefix", "str::rsplit_once", "str::split_once"):
+        if matches(n, "slice::get", "slice::get_mut", "Vec::get", "Vec::get_mut") or n in ("core::slice::get", "core::slice::get_mut"):
+            s = seq_of(A, st, A.arg(st, frame, t, 0))
+            i = A.deref(st, A.arg(st, frame, t, 1))
+            if s is not None and i[0] == "int" and st.store.entails(i[1].sub(s[1]).addc(1)):
+                return ret(("opt", "Some", None, "Option"))
         if matches(n, "Vec::pop"):
             k = A.recv_key(st, frame, t, 0)
             if k is not None:
@@ -323,7 +334,7 @@ def model(A, fn, frame, b, t, st, name):
                 if s is not None:
                     ns = A.newsym(st, "len", 0, LEN_MAX)
                     st.store.add(Lin.sym(ns).sub(s[1]))
-                    A.write_key(st, k, ("seq", Lin.sym(ns), s[2]))
+                    A.write_key(st, k, ("seq", Lin.sym(ns), s[2], fresh_ident(A)))
         return ret(("opt", None, None, "Option"))
 
     # ---------------------------------------------------------------- Vec / String mutation
@@ -375,7 +386,7 @@ def model(A, fn, frame, b, t, st, name):
         elif m == "truncate":
             i = int_of(A, st, A.arg(st, frame, t, 1))
             if "String" in n:
-                okb = i is not None and (is_boundary(A, st, k, s, i))
+                okb = i is not None and is_cb(st, s, i)
                 sx = A.site(fn, b, "str-boundary", "String::truncate at a char boundary")
                 if not st.bottom:
                     sx.seen += 1
@@ -407,9 +418,9 @@ def model(A, fn, frame, b, t, st, name):
             ns = A.newsym(st, "len", 0, LEN_MAX)
             newlen = Lin.sym(ns)
             flags = frozenset()
-        A.write_key(st, k, ("seq", newlen, flags))
-        # boundary facts are about the old contents
-        st.env.pop(bnd_key(k), None)
+        # a mutated string is a new value: boundary facts about the old contents do not carry over, except that
+        # appending keeps every old boundary and truncating at a boundary keeps those below it (not tracked)
+        A.write_key(st, k, ("seq", newlen, flags, fresh_ident(A)))
         return ret(None)
     if n.endswith("slice::copy_from_slice") or matches(n, "slice::copy_from_slice", "slice::clone_from_slice"):
         d = seq_of(A, st, A.arg(st, frame, t, 0))
@@ -496,7 +507,15 @@ def model(A, fn, frame, b, t, st, name):
         return ret(None)
     if matches(n, "Iterator::take"):
         v = A.deref(st, A.arg(st, frame, t, 0))
-        if v[0] == "iter" and v[1] in ("enum", "seq", "range"):
+        k = int_of(A, st, A.arg(st, frame, t, 1))
+        if v[0] == "iter" and v[1] in ("enum", "seq"):
+            if k is not None:
+                m = A.newsym(st, "take", 0, LEN_MAX)
+                st.store.add(Lin.sym(m).sub(v[2][0]))
+                st.store.add(Lin.sym(m).sub(k))
+                return ret(("iter", v[1], (Lin.sym(m),)))
+            return ret(v)
+        if v[0] == "iter" and v[1] == "range":
             return ret(v)
         return ret(None)
     if matches(n, "Iterator::next"):
@@ -519,6 +538,30 @@ def model(A, fn, frame, b, t, st, name):
                 st.store.add(sl.sub(v[2][0]).addc(1))
                 return ret(("opt", None, ("tuple", (("int", sl), TOP)), "Option"))
         return ret(("opt", None, None, "Option"))
+    if n.endswith("::recv") and ("UdpSocket" in n) and opt_family(dest_ty) == "Result":
+        # documented: returns the number of bytes read, at most the length of the buffer
+        buf = seq_of(A, st, A.arg(st, frame, t, 1))
+        k = A.recv_key(st, frame, t, 1)
+        sy = A.newsym(st, "recvd", 0, LEN_MAX)
+        if buf is not None:
+            st.store.add(Lin.sym(sy).sub(buf[1]))
+        ity = inner_ty(dest_ty, "Result") or ""
+        pay = ("int", Lin.sym(sy)) if is_int_ty(ity) else ("tuple", (("int", Lin.sym(sy)), TOP))
+        return ret(("opt", None, pay, "Result"))
+    if matches(n, "slice::binary_search_by", "slice::binary_search", "slice::binary_search_by_key") or n.startswith("core::slice::binary_search"):
+        s = seq_of(A, st, A.arg(st, frame, t, 0))
+        sy = A.newsym(st, "bs", 0, LEN_MAX)
+        if s is not None:
+            st.store.add(Lin.sym(sy).sub(s[1]))        # Ok(i): i < len ; Err(i): i <= len
+        return ret(("opt", None, ("either", ("int", Lin.sym(sy)), ("int", Lin.sym(sy))), "Result"))
+    if matches(n, "Iterator::find") and opt_family(dest_ty) == "Option":
+        v = A.deref(st, A.arg(st, frame, t, 0))
+        if v[0] == "iter" and v[1] == "enum":
+            s = A.newsym(st, "i", 0, LEN_MAX)
+            sl = Lin.sym(s)
+            st.store.add(sl.sub(v[2][0]).addc(1))
+            return ret(("opt", None, ("tuple", (("int", sl), TOP)), "Option"))
+        return ret(("opt", None, None, "Option"))
     if matches(n, "Iterator::position", "Iterator::rposition"):
         v = A.deref(st, A.arg(st, frame, t, 0))
         if v[0] == "iter" and v[1] == "seq":
@@ -527,28 +570,47 @@ def model(A, fn, frame, b, t, st, name):
             st.store.add(sl.sub(v[2][0]).addc(1))
             return ret(("opt", None, ("int", sl), "Option"))
         return ret(("opt", None, None, "Option"))
-    if matches(n, "str::find", "str::rfind"):
+    if matches(n, "str::find", "str::rfind") or n in ("core::str::find", "core::str::rfind"):
         s = seq_of(A, st, A.arg(st, frame, t, 0))
         pl, ascii_ = pat_info(A, st, A.arg(st, frame, t, 1))
-        k = A.recv_key(st, frame, t, 0)
         if s is not None:
             sy = A.newsym(st, "at", 0, LEN_MAX)
             sl = Lin.sym(sy)
             st.store.add(sl.add(pl if pl is not None else Lin.const(0)).sub(s[1]))
-            if k is not None:
-                add_boundary(st, k, sl)
+            ptxt = pat_text(A, st, A.arg(st, frame, t, 1))
+            if ptxt is not None:
+                add_ct(st, seq_ident(s), sl, ptxt)
+                if len(ptxt) == 1:
+                    # a single character that does not occur in a known prefix of the haystack is found behind it
+                    for pre in text_at_start(st, s):
+                        if ptxt not in pre:
+                            st.store.add(Lin.const(len(pre.encode())).sub(sl))
+            # a match starts and ends on char boundaries; inside an ASCII pattern every position is one
+            if pl is not None and ascii_:
+                add_cb(st, seq_ident(s), sl, sl.add(pl))
+            else:
+                add_cb(st, seq_ident(s), sl)
                 if pl is not None:
-                    add_boundary(st, k, sl.add(pl))
+                    add_cb(st, seq_ident(s), sl.add(pl))
             return ret(("opt", None, ("int", sl), "Option"))
         return ret(("opt", None, None, "Option"))
-    if matches(n, "str::starts_with", "str::ends_with"):
+    if matches(n, "str::starts_with", "str::ends_with") or n in ("core::str::starts_with", "core::str::ends_with"):
         s = seq_of(A, st, A.arg(st, frame, t, 0))
         pl, ascii_ = pat_info(A, st, A.arg(st, frame, t, 1))
-        k = A.recv_key(st, frame, t, 0)
         if s is not None and pl is not None:
-            if k is not None:
-                # recorded unconditionally would be unsound: attach to the true outcome through a marker condition
-                return ret(("bool", ("onlytrue", ("and", ("le", pl.sub(s[1])), ("bnd", k, pl if n.endswith("starts_with") else s[1].sub(pl))))))
+            start = n.endswith("starts_with")
+            lo = Lin.const(0) if start else s[1].sub(pl)
+            hi = pl if start else s[1]
+            if not ascii_:
+                lo = hi = (pl if start else s[1].sub(pl))
+            i = seq_ident(s)
+            if i is not None:
+                # only on the true outcome: the pattern fits, and its extent consists of char boundaries
+                ptxt = pat_text(A, st, A.arg(st, frame, t, 1))
+                c = ("and", ("le", pl.sub(s[1])), ("bnd", i, lo, hi))
+                if ptxt is not None:
+                    c = ("and", c, ("txt", i, Lin.const(0) if start else s[1].sub(pl), ptxt))
+                return ret(("bool", ("onlytrue", c)))
             return ret(("bool", ("onlytrue", ("le", pl.sub(s[1])))))
         return ret(("bool", TOP))
     if matches(n, "str::parse", "FromStr::from_str"):
@@ -557,7 +619,7 @@ def model(A, fn, frame, b, t, st, name):
         return ret(("opt", None, pay, "Result"))
     if matches(n, "str::from_utf8", "String::from_utf8"):
         s = seq_of(A, st, A.arg(st, frame, t, 0))
-        return ret(("opt", None, ("seq", s[1], frozenset()) if s is not None else None, "Result"))
+        return ret(("opt", None, ("seq", s[1], frozenset(), seq_ident(s)) if s is not None else None, "Result"))
     if matches(n, "cmp::min", "Ord::min", "cmp::max", "Ord::max"):
         a = int_of(A, st, A.arg(st, frame, t, 0))
         c = int_of(A, st, A.arg(st, frame, t, 1))
